@@ -109,7 +109,7 @@ class C12(Prop):
             return rng.randrange(1, 5000)
         return rng.randrange(1, 3 << 20)
 
-    def _one(self, rng, j):
+    def _one(self, rng, j, nonce=""):
         init = rng.choice([1, 512, 1000, 4096, 4096, rng.randrange(1, 70000)])
         sim = Sim(init)
         ops = []
@@ -199,15 +199,17 @@ class C12(Prop):
                     ["alloc", rng.choice([MAXALLOC, 200, 1, 6000])], ["alloc", 5], ["size"], ["alloc", 600], ["chunks"]]
             tags.add("carry")
         ops += [["verify"], ["chunks"], ["allocated"], ["size"]]
-        return Case("a%d" % j, "alloc", [init], ops, tags)
+        return Case("a%d%s" % (j, nonce), "alloc", [init], ops, tags)
 
     def gen(self, rng, n, ctx):
         xs = list(range(0, 1030)) + [2047, 2048, 2049, 4095, 4096, 4097, 65535, 65536, 65537, (1 << 20) - 1, 1 << 20,
                                      (1 << 20) + 1, (1 << 22) + 5]
         xs += [rng.randrange(1, 1 << 22) for _ in range(60)]
-        cases = [Case("log2", "alloclog2", [], [[x] for x in xs])]
+        # ids carry a nonce: lib/prop.py mixes a shrunk case with a freshly generated batch and keys outputs by id
+        nonce = "x%04x" % rng.getrandbits(16)
+        cases = [Case("log2" + nonce, "alloclog2", [], [[x] for x in xs])]
         for j in range(n):
-            cases.append(self._one(rng, j))
+            cases.append(self._one(rng, j, nonce))
         return cases
 
     # ------------------------------------------------------------------ oracle (independent of the Coq model)
@@ -415,9 +417,58 @@ class C12(Prop):
         return st
 
     # ------------------------------------------------------------------ real concurrency (property oracle only)
+    def _crash_culprit(self):
+        """the main batch ran in one harness process; if that process died (memory budget, fatal error) its buffered
+        output ends somewhere before the case that killed it: find that case by bisection, one process per half"""
+        cf = os.path.join(core.BUILD, "cases_C12.txt")
+        of = os.path.join(core.BUILD, "impl_C12.out")
+        if not (os.path.exists(cf) and os.path.exists(of)):
+            return None
+        cases = core.parse_cases(cf)
+        out = core.parse_output(of)
+        first = None
+        for k, c in enumerate(cases):
+            if len(out.get(c.id, [])) < len(c.ops):
+                first = k
+                break
+        if first is None:
+            return None
+        tcf = os.path.join(core.BUILD, "cases_C12_crash.txt")
+        tof = os.path.join(core.BUILD, "impl_C12_crash.out")
+
+        def dies(cs):
+            core.write_cases(cs, tcf)
+            if os.path.exists(tof):
+                os.remove(tof)
+            rc, log = core.run_harness("z", tcf, tof, timeout=600)
+            return rc != 0, log
+
+        cand = cases[first:]
+        bad, log = dies(cand)
+        if not bad:
+            return None
+        while len(cand) > 1:
+            half = cand[:len(cand) // 2]
+            b, l = dies(half)
+            if b:
+                cand, log = half, l
+            else:
+                cand = cand[len(cand) // 2:]
+        b, l = dies(cand)
+        if not b:
+            return None
+        c = cand[0]
+        il = core.parse_output(tof).get(c.id, [])
+        msg = [x for x in l.splitlines() if "verif:" in x or "fatal" in x or "panic" in x][:2]
+        return ("the harness process dies while running this case: " + " | ".join(msg)[:300],
+                replay_body(self, c, "harness process dies: " + " | ".join(msg)[:300], il, extra=l[-800:]))
+
     def extra(self, ctx):
         rng = ctx.rng
         cases = []
+        crash = self._crash_culprit()
+        if crash:
+            return [crash]
         if ctx.tier == "quick":
             plan = [(8, 400, 4096), (32, 150, 600), (3, 300, 70000)]
         else:
